@@ -148,7 +148,9 @@ def step (_ : Unit) (line : String) : Unit × String :=
     | ["repeat", _, a, b, amount] =>
       match parseArr a, parseBox b, amount.toInt? with
       | some (.l xs), some (.one b), some am =>
-        s!"ok {showArr (.l (repeatBoxCoord K xs b am))} {showNatsU (repeatIndices K xs.length am)}"
+        match repeatBoxCoordE K xs b am with
+        | .ok (ys, idx) => s!"ok {showArr (.l ys)} {showNatsU idx}"
+        | .error e => "ERR:" ++ e.toString
       | _, _, _ => "bad-op"
     | ["rbox", _, a, b, amount] =>
       let am? : Option (Option Int) := if amount == "-" then some none else amount.toInt?.map some
@@ -203,7 +205,7 @@ def step (_ : Unit) (line : String) : Unit × String :=
       match parseArr a with
       | some (.l xs) => match centroid xs with
         | some c => "ok v:" ++ showVec c
-        | none => "unmodelled"
+        | none => "ok v:nan,nan,nan"      -- `np.mean` of an empty axis
       | _ => "bad-op"
     | _ => "bad-op"
   ((), out)
